@@ -99,8 +99,18 @@ def main():
     os.makedirs(out_dir, exist_ok=True)
     shutil.copy(patch, os.path.join(out_dir, "patch.diff"))
     shutil.copy(demo, os.path.join(out_dir, "demo_test.go"))
+    prev = {}
+    try:
+        prev = json.load(open(os.path.join(out_dir, "meta.json")))
+    except Exception:
+        pass
+    if skip_confirm and prev.get("confirmed"):
+        ran = prev["confirmed"]
+    history = prev.get("check_history", [])
+    if prev.get("checks_run"):
+        history.append({"checks_run": prev["checks_run"], "note": "earlier run (before the checks were strengthened)"})
     meta.update({"seed_id": sid, "breaks_property": props[0], "confirmed": ran, "checks_run": detected,
-                 "detected_by": [k for k, v in detected.items() if v["exit"] == 1]})
+                 "detected_by": [k for k, v in detected.items() if v["exit"] == 1], "check_history": history})
     json.dump(meta, open(os.path.join(out_dir, "meta.json"), "w"), indent=1)
     # replays produced against a seeded change do not belong to the unchanged tree
     for p in props:
